@@ -401,7 +401,10 @@ def configs(ctx):
         projects, apps = [], []
         for p in range(nproj):
             generations = rng.randint(2, 3)
-            projects.append((f'p{i}x{p}', ['m1', 'm2'][:rng.randint(1, 2)], generations))
+            actors = ['m1', 'm2'][:rng.randint(1, 2)]
+            if (i + p) % 2 == 0:  # a fan-out into branches of unequal depth behind the stateful chain
+                actors = actors + ['fork:f']
+            projects.append((f'p{i}x{p}', actors, generations))
             chosen = rng.sample(range(1, generations + 1), min(generations, rng.randint(1, 2)))
             apps.append([(f'app{i}x{p}g{g}', g) for g in chosen])
         if ctx.quick:
